@@ -35,7 +35,8 @@ RULE = ("op sequences over a pool of 3-6 keys x (4 IPv4 + 3 IPv6 + 2 host-name a
         "snapshot fed back, services passed as list/tuple/one-shot generator/dict view/reused caller-owned set, discovery "
         "strategies (EdgeWalk, RandomWalk) run as consumers of the live objects the lookups return, re-entrant observers (a "
         "peer-limit observer removing the newcomer inside on_peer_added, an observer probing the lookups during the callback), "
-        "IPv6 addresses with several text renderings (IPv4-mapped/-compatible, loopback, mid zero run), interleaved with all get_* queries and snapshot; cache caps from {1,2,3,500}, raised mid-history. Random sequences of length 10..200 "
+        "IPv6 addresses with several text renderings (IPv4-mapped/-compatible, loopback, mid zero run), host names that lenient "
+        "parsers read as IPv4 (10.1, 4242, 0x7f.1, 1.2.3), interleaved with all get_* queries and snapshot; cache caps from {1,2,3,500}, raised mid-history. Random sequences of length 10..200 "
         "are steered by a reference graph so that removals, updates and lookups mostly hit existing peers/addresses; "
         "exhaustive enumeration of all sequences over a 20 op alphabet (3 keys, 3 addresses, 2 services; caps 1/1/1) to "
         "depth 3 (quick) / 4 (thorough) and over a 10 op sub-alphabet to depth 5 (thorough), each followed by a sweep of "
@@ -76,10 +77,13 @@ V6 = ["6.20010db80000000000000000000000%02x.%d" % (i, 6000 + i) for i in range(1
 V6_FORMS = ["6.00000000000000000000ffff01020304.7001", "6.00000000000000000000000005060708.7002",
             "6.00000000000000000000000000000001.7003", "6.20010db8000000000001000000000001.7004"]
 DOM = ["0.%s.%d" % (("node%d.example.org" % i).encode().hex(), 5000 + i) for i in range(1, 3)]
+# host NAMES that lenient parsers (inet_aton, int()) would read as IPv4 addresses although they are not dotted quads: they
+# are names — strict inet_pton rejects them — and have to stay names through every conversion
+DOM_NUMERIC = ["0.%s.%d" % (h.encode().hex(), 5100 + i) for i, h in enumerate(["10.1", "4242", "0x7f.1", "1.2.3"])]
 ZERO = "4.00000000.0"
 # boundary values: port 0 on a real host, the zero host with a real port, high host bytes and the highest port
 EDGE = ["4.0a000009.0", "4.00000000.7", "4.c8c8c8c8.65535"]
-POOL = V4 + V6 + DOM + [ZERO] + EDGE + V6_FORMS
+POOL = V4 + V6 + DOM + [ZERO] + EDGE + V6_FORMS + DOM_NUMERIC
 SVCS = ["s1", "s2", "s3"]
 NSLOTS = 5          # 0 UDPv4Address, 1 UDPv6Address, 2 tuple, 3 UDPv4LANAddress, 4 DomainAddress
 
@@ -479,7 +483,7 @@ REQUIRED_CLASSES = {
                                    "address-argument-class:3", "address-argument-class:4"],
     "observers": ["observer:added", "observer:removed", "observer-mode:limit", "observer-mode:probe",
                   "observer:re-entrant-removal", "observer:probe-during-callback"],
-    "address text forms": ["snap:ipv6-text-form-address", "load:own-snapshot-fed-back"],
+    "address text forms": ["snap:ipv6-text-form-address", "snap:numeric-looking-host-name", "load:own-snapshot-fed-back"],
     "unverified introducer": ["qw:answer-depends-on-unverified-introducer"],
     "consumers in /repo (objects handed out)": ["walk:EdgeWalk", "walk:RandomWalk", "walk:issues:qs", "walk:issues:qw",
                                                  "walk:issues:qi", "walk:issues:qa"],
@@ -929,6 +933,8 @@ def classify(spec: Spec, real: Real, t) -> list:
             out.append("snap:address-only-from-constructor")
         if any(spec.preferred(k) in V6_FORMS for k in spec.V):
             out.append("snap:ipv6-text-form-address")
+        if any(spec.preferred(k) in DOM_NUMERIC for k in spec.V):
+            out.append("snap:numeric-looking-host-name")
     return out
 
 
@@ -1131,11 +1137,11 @@ def rand_slots(rng):
     if rng.random() < 0.25 or not slots:
         slots[1] = rng.choice(V6 + V6_FORMS)
     if rng.random() < 0.15:
-        slots[2] = rng.choice(V4 + DOM)
+        slots[2] = rng.choice(V4 + DOM + DOM_NUMERIC)
     if rng.random() < 0.12:
         slots[3] = rng.choice(V4)
     if rng.random() < 0.10:
-        slots[4] = rng.choice(DOM)
+        slots[4] = rng.choice(DOM + DOM_NUMERIC)
     if rng.random() < 0.08:      # a peer that only has an address of a class outside INTERFACE_ORDER
         slots = {rng.choice([3, 4]): rng.choice(V4 if rng.random() < 0.5 else DOM)}
     ctor = rng.choice(sorted(slots)) if slots and rng.random() < 0.35 else None
@@ -1408,6 +1414,10 @@ def scripted():
         # boundary addresses: port 0 on a real host, zero host with a real port, highest port
         [c500, f"add p0:0={EDGE[0]}", f"add p1:0={EDGE[1]}", f"add p2:0={EDGE[2]}", "snap", f"qa {EDGE[0]} ?", "load *", "qw - 0"],
         [c500, f"add p0:0={ZERO}", f"add p1:1={V6[0]}", "snap", "load *", "qw - 0"],
+        # host names that look numeric: they must come back from snapshot -> load_snapshot as the same names
+        [c500] + [f"add p{i}:2={v}" for i, v in enumerate(DOM_NUMERIC)] + ["snap", "load *", "qw - 0"]
+        + [f"rmp p{i}:*" for i in range(len(DOM_NUMERIC))] + ["load *", "qw - 0", f"qa {DOM_NUMERIC[0]} ?"],
+        [c500, f"add p0:^4={DOM_NUMERIC[1]}", f"disc p0:^4={DOM_NUMERIC[1]} {DOM_NUMERIC[0]} s1 0", "snap", "load *", "qw - 0", "qw s1 0"],
         # IPv6 text forms: every address must come back from snapshot -> load_snapshot as the same (text, port)
         [c500] + [f"add p{i}:1={v}" for i, v in enumerate(V6_FORMS)] + ["snap", "load *", "qw - 0"]
         + [f"rmp p{i}:*" for i in range(len(V6_FORMS))] + ["load *", "qw - 0", f"qa {V6_FORMS[0]} ?"],
